@@ -2,11 +2,12 @@
 §4.1.2 for the NSEC bitmap, RFC 2782 for SRV) -- not from the Lean `Wire.Strict` and not from the library.
 
 Used by harness/c02.py (stage O) for two things:
-  * `decode(b, name_rule="lib253")` cross-checks Lean's `Strict.decode` (accept/reject and content), so that
-    the "strict RFC 1035 parser" of the C02 theorem is not only judged by itself;
-  * `decode(b, name_rule="rfc")` applies RFC 1035's own length rule -- a name is at most 255 octets on the wire,
-    length octets and the root label included (§2.3.4, §3.1) -- to *observe* where the library's documented
-    253-character rule departs from the RFC (in both directions).
+  * `decode(b, name_rule="strict")` (<= 255 wire octets AND <= 253 characters, as `Wire.Strict` demands) cross-checks
+    Lean's `Strict.decode` (accept/reject and content), so that the "strict RFC 1035 parser" of the C02 theorem is
+    not only judged by itself;
+  * `decode(b, name_rule="rfc")` applies RFC 1035's own length rule alone -- a name is at most 255 octets on the wire,
+    length octets and the root label included (§2.3.4, §3.1) -- and `name_rule="chars253"` the library's documented
+    253-character rule alone, to *observe* where the two depart (in both directions).
 
 Strictness shared with `Wire.Strict`: exact section counts, no trailing octets, labels 1..63 octets, compression
 pointers only backwards to before the start of the current name segment and not into the header, at most 128
@@ -69,12 +70,10 @@ def decode(b, name_rule="rfc"):
 
     def name(off):
         labels, e = _name(b, off)
-        if name_rule == "rfc":
-            if wire_octets(labels) > 255:
-                raise Reject("name longer than 255 octets")
-        elif name_rule == "lib253":
-            if len(text(labels)) > 253:
-                raise Reject("name longer than 253 characters")
+        if name_rule in ("rfc", "strict") and wire_octets(labels) > 255:
+            raise Reject("name longer than 255 octets")
+        if name_rule in ("chars253", "strict") and len(text(labels)) > 253:
+            raise Reject("name longer than 253 characters")
         names.append(labels)
         return labels, e
 
